@@ -190,7 +190,12 @@ var revOps = []Op{{"RegConn", "bd"}, {"DropConn", "bd"}, {"Rev", "2"}, {"Rev", "
 // revOps2 adds a replica bd2 of bd that stays on revision 1.
 var revOps2 = append(append([]Op{}, revOps...), Op{"RegConn", "bd2"}, Op{"DropConn", "bd2"})
 
-var extOps = append(append(append([]Op{}, revOps2...), allOps...), Op{"RegConn", "b3x"}, Op{"DropConn", "b3x"}, Op{"RegConn", "b4"}, Op{"DropConn", "b4"})
+// listOps: bd starts / stops advertising its second service D2 (declared in
+// the same file, whose bytes do not change): after a refresh with everything
+// advertised both services must be served.
+var listOps = []Op{{"RegConn", "bd"}, {"DropConn", "bd"}, {"List", "d1"}, {"List", "all"}, {"Rev", "2"}}
+
+var extOps = append(append(append([]Op{{"List", "d1"}, {"List", "all"}}, revOps2...), allOps...), Op{"RegConn", "b3x"}, Op{"DropConn", "b3x"}, Op{"RegConn", "b4"}, Op{"DropConn", "b4"})
 
 func randomHistory(rng *rand.Rand, minLen, maxLen int) History {
 	n := minLen + rng.Intn(maxLen-minLen+1)
@@ -298,6 +303,20 @@ func RunC11(r *mon.Run) {
 				}
 			}
 			if ok {
+				keep = append(keep, h)
+			}
+		}
+		total += len(keep)
+		outs := g.runAll(keep, Draws)
+		for i, h := range keep {
+			g.account(h, outs[i])
+			g.attribute(h, outs[i], Draws)
+		}
+	}
+	for L := 2; L <= extLen+1; L++ {
+		var keep []History
+		for _, h := range enumerate(listOps, L) {
+			if h[0].K == "List" && h[0].B == "d1" {
 				keep = append(keep, h)
 			}
 		}
